@@ -230,8 +230,9 @@ HOSTILE = ["<b>", "</script>", "a&b", "&", "&amp;", "&lt;", "&lt", "&#", "&#60;"
            "a'b\"c", "&amp;lt;", "<<>>", "&amp", "&#x3C;", "plain", "", "&&", "<a href='x'>", "1 < 2 & 3 > 2"]
 FILTERS0 = ["upcase", "downcase", "capitalize", "strip", "lstrip", "rstrip", "escape", "escape_once", "strip_html", "strip_newlines", "url_encode", "url_decode",
             "base64_encode", "base64_decode", "base64_url_safe_encode", "base64_url_safe_decode", "squish", "size", "first", "last", "reverse", "sort", "sort_natural",
-            "uniq", "compact", "join", "json", "escapejs"]
-FILTERS1 = ["append", "prepend", "remove", "remove_first", "remove_last", "split", "join", "default", "truncate", "truncatewords", "slice", "concat", "map", "where", "t", "date"]
+            "uniq", "compact", "join", "json", "escapejs", "gettext", "sum", "sort_numeric"]
+FILTERS1 = ["append", "prepend", "remove", "remove_first", "remove_last", "split", "join", "default", "truncate", "truncatewords", "slice", "concat", "map", "where", "t", "date",
+            "find", "find_index", "has", "reject", "index", "pgettext", "ngettext", "npgettext", "plus", "times"]
 FILTERS2 = ["replace", "replace_first", "replace_last", "slice", "truncate"]
 VARS = ["s", "t", "xs", "h.k", "os", "cap"]
 
@@ -245,8 +246,20 @@ def arg(rng, f: str) -> str:
         return str(rng.choice([1, 2, 3, 5]))
     if f == "slice":
         return str(rng.choice([0, 1, 2, -1, -2, 3]))
-    if f in ("map", "where"):
+    if f in ("map", "where", "reject"):
         return "'k'"
+    if f in ("find", "find_index", "has"):
+        return "'k', " + rng.choice(["s", "t", "'a'"])
+    if f == "index":
+        return str(rng.choice([0, 1, -1]))
+    if f == "pgettext":
+        return rng.choice(["'c'", "s"])
+    if f == "ngettext":
+        return rng.choice(["t", "s", "'many'"]) + ", " + rng.choice(["1", "2"])
+    if f == "npgettext":
+        return rng.choice(["'c'", "t"]) + ", " + rng.choice(["t", "s", "'many'"]) + ", " + rng.choice(["1", "2"])
+    if f in ("plus", "times"):
+        return rng.choice(["1", "s"])
     if f == "concat":
         return "xs"
     if rng.random() < 0.4:
